@@ -176,8 +176,11 @@ class ConstTable:
             if base in local_names:
                 return None
             r = model.resolve_name(f.module, base)
-            if r and r[0] == 'module' and r[1] in model.modules:
-                return self.mod.get((r[1], e.attr))
+            if r and r[0] == 'module':
+                mname = r[1] if isinstance(r[1], str) else getattr(
+                    r[1], 'name', None)
+                if mname in model.modules:
+                    return self.mod.get((mname, e.attr))
             if r and r[0] == 'class':
                 for c in model.mro(r[1]):
                     if (c.qual, e.attr) in self.cls:
@@ -1065,7 +1068,10 @@ def n5_unroll_tables(fnode, keep=()):
                 local_tables[v] = st
 
     def table_of(it, target=None):
-        if isinstance(it, (ast.Tuple, ast.List)) and (
+        tnames = [x.id for x in ast.walk(target)
+                  if isinstance(x, ast.Name)] if target is not None else []
+        pinned_loop = bool(tnames) and all(n in keep for n in tnames)
+        if isinstance(it, (ast.Tuple, ast.List)) and not pinned_loop and (
                 getattr(it, '_pv_new', False) or (
                     target is not None and not any(
                         isinstance(x, ast.Name) and x.id in keep
@@ -1073,7 +1079,8 @@ def n5_unroll_tables(fnode, keep=()):
             # a literal table that a new constant named, or a loop whose
             # variables the pinned tree does not have
             return it, None
-        if isinstance(it, ast.Name) and it.id in local_tables:
+        if isinstance(it, ast.Name) and it.id in local_tables and \
+                not pinned_loop:
             uses = sum(1 for x in _own_walk(fnode)
                        if isinstance(x, ast.Name) and x.id == it.id and
                        isinstance(x.ctx, ast.Load))
@@ -1088,9 +1095,11 @@ def n5_unroll_tables(fnode, keep=()):
         if tab is None or not tab.elts or len(tab.elts) > 12 or \
                 len(st.body) > 10:
             return None
-        if any(isinstance(x, (ast.Break, ast.Continue))
+        if any(isinstance(x, ast.Break)
                for b in st.body for x in _own_walk(b)):
             return None
+        has_continue = any(isinstance(x, ast.Continue)
+                           for b in st.body for x in _own_walk(b))
         tg = st.target
         names = None
         if isinstance(tg, ast.Name):
@@ -1119,14 +1128,39 @@ def n5_unroll_tables(fnode, keep=()):
         out = []
         for r in rows:
             env = dict(zip(names, r))
+            copy_ = []
             for b in st.body:
-                nb = _subst_stmt(b, env)
-                for x in ast.walk(nb):
-                    if not hasattr(x, 'lineno'):
-                        ast.copy_location(x, b)
-                out.append(nb)
+                nb = _fold_consts(_subst_stmt(b, env))
+                if nb is None:
+                    continue
+                nbs = nb if isinstance(nb, list) else [nb]
+                for one in nbs:
+                    for x in ast.walk(one):
+                        if not hasattr(x, 'lineno'):
+                            ast.copy_location(x, b)
+                copy_.extend(nbs)
+            # statements after an unconditional `continue` are dead
+            live = []
+            for c_ in copy_:
+                if isinstance(c_, ast.Continue):
+                    break
+                live.append(c_)
+            copy_ = live
+            if has_continue and any(isinstance(x, ast.Continue)
+                                    for c_ in copy_ for x in _own_walk(c_)):
+                # a one-trip loop keeps `continue` meaning "next row"
+                once = ast.For(
+                    target=ast.Name(id='_once', ctx=ast.Store()),
+                    iter=ast.Tuple(elts=[ast.Constant(value=None)],
+                                   ctx=ast.Load()),
+                    body=copy_ or [ast.Pass()], orelse=[], type_comment=None)
+                ast.copy_location(once, st)
+                ast.fix_missing_locations(once)
+                out.append(once)
+            else:
+                out.extend(copy_)
         changed[0] = True
-        return out, defn
+        return (out or [ast.copy_location(ast.Pass(), st)]), defn
 
     drop = set()
 
@@ -1154,6 +1188,86 @@ def n5_unroll_tables(fnode, keep=()):
         fnode.body = [st for st in fnode.body if id(st) not in drop] or \
             [ast.Pass()]
     return changed[0]
+
+
+def _fold_consts(st):
+    """fold what substituting a table row made constant: 'a' + 'b',
+    'x' == 'y', `if <constant>:`;  -> statement, list of statements or None"""
+    class F(ast.NodeTransformer):
+        def visit_BinOp(self, n):
+            n = self.generic_visit(n)
+            if isinstance(n.op, ast.Add) and \
+                    isinstance(n.left, ast.Constant) and \
+                    isinstance(n.right, ast.Constant) and \
+                    type(n.left.value) is type(n.right.value) and \
+                    isinstance(n.left.value, (str, bytes)):
+                return ast.copy_location(
+                    ast.Constant(value=n.left.value + n.right.value), n)
+            return n
+
+        def visit_Compare(self, n):
+            n = self.generic_visit(n)
+            if len(n.ops) == 1 and isinstance(n.left, ast.Constant) and \
+                    isinstance(n.comparators[0], ast.Constant) and \
+                    isinstance(n.ops[0], (ast.Eq, ast.NotEq)) and \
+                    isinstance(n.left.value, (str, bytes, int)) and \
+                    isinstance(n.comparators[0].value, (str, bytes, int)):
+                r = n.left.value == n.comparators[0].value
+                if isinstance(n.ops[0], ast.NotEq):
+                    r = not r
+                return ast.copy_location(ast.Constant(value=r), n)
+            return n
+
+        def visit_BoolOp(self, n):
+            n = self.generic_visit(n)
+            vals = []
+            for v in n.values:
+                if isinstance(v, ast.Constant) and isinstance(v.value, bool):
+                    if isinstance(n.op, ast.And):
+                        if v.value:
+                            continue
+                        return ast.copy_location(ast.Constant(value=False), n)
+                    if not v.value:
+                        continue
+                    return ast.copy_location(ast.Constant(value=True), n)
+                vals.append(v)
+            if not vals:
+                return ast.copy_location(ast.Constant(
+                    value=isinstance(n.op, ast.And)), n)
+            if len(vals) == 1:
+                return vals[0]
+            n.values = vals
+            return n
+
+        def visit_UnaryOp(self, n):
+            n = self.generic_visit(n)
+            if isinstance(n.op, ast.Not) and \
+                    isinstance(n.operand, ast.Constant) and \
+                    isinstance(n.operand.value, bool):
+                return ast.copy_location(
+                    ast.Constant(value=not n.operand.value), n)
+            return n
+    st = F().visit(st)
+
+    def prune(node):
+        for fld in ('body', 'orelse', 'finalbody'):
+            sub = getattr(node, fld, None)
+            if isinstance(sub, list):
+                new = []
+                for x in sub:
+                    r = prune(x)
+                    if r is None:
+                        continue
+                    new.extend(r if isinstance(r, list) else [r])
+                if fld == 'body' and not new:
+                    new = [ast.copy_location(ast.Pass(), node)]
+                setattr(node, fld, new)
+        if isinstance(node, ast.If) and isinstance(node.test, ast.Constant) \
+                and isinstance(node.test.value, bool):
+            keep = node.body if node.test.value else node.orelse
+            return list(keep) if keep else None
+        return node
+    return prune(st)
 
 
 def _subst_stmt(st, env):
